@@ -30,7 +30,7 @@ PROPS = {
                        'functions the theorems are about; the C12 clauses are also re-checked on every implementation output',
     },
     'C14': {
-        'corpus': ['crowd-migrate.ops'],
+        'corpus': ['crowd-migrate.ops', 'index-update-without-holders.ops'],
         'families': [gen('rewards', 30, 120), gen('token', 30, 120), gen('dust', 20, 120), gen('crowd', 8, 160)],
         'slice': REWARD_SLICE,
         'explanation': 'reward-contract invariant (sum of holders dues <= recorded balance <= bank balance, claims pay whole units) '
@@ -43,7 +43,7 @@ PROPS = {
                        'the same statements are re-evaluated on every implementation step from Holder/State/AccruedRewards queries',
     },
     'C18': {
-        'corpus': ['D4.ops', 'crowd-migrate.ops', 'alt-spelling-genesis.ops'],
+        'corpus': ['D4.ops', 'crowd-migrate.ops', 'alt-spelling-genesis.ops', 'hub-as-allowance-owner.ops'],
         'families': [gen('token', 30, 120), gen('tokeninit', 30, 100), gen('mixed', 15, 120), gen('crowd', 8, 160)],
         'slice': [r'tok\..*', r'inst\.bsei', r'inst\.stsei', r'hub\.bond', r'hub\.bondst'],
         'explanation': 'ledger invariant (sum of balances = supply) proved for every instantiate message and every message sequence of both token flavours; '
